@@ -275,6 +275,89 @@ Proof.
   - intros [t [fks [Hx <-]]]. exists (DropTable t fks). split; [exact Hx|left; reflexivity].
 Qed.
 
+(** * Plans whose every obligation is met by the prefix before it *)
+Record split_ok (l : list change) (c : cat) : Prop := {
+  (* every table of the plan is created at most once, and does not pre-exist *)
+  so_adds : NoDup (flat_map adds l);
+  so_adds_new : forall n, In n (flat_map adds l) -> ~ In n (c_tabs c);
+  (* ... dropped at most once, and pre-exists *)
+  so_drops : NoDup (flat_map drops l);
+  so_drops_old : forall n, In n (flat_map drops l) -> In n (c_tabs c);
+  (* a declared foreign key never points at a table the plan drops *)
+  so_nodrop : forall x f, In x l -> In f (added_fks x) -> ~ In (t_name (f_ref f)) (flat_map drops l);
+  (* its parent pre-exists, or is created before, or is the created table itself *)
+  so_fk : forall pre x post f, l = pre ++ x :: post -> In f (added_fks x) ->
+    In (t_name (f_ref f)) (c_tabs c) \/ In (t_name (f_ref f)) (flat_map adds pre) \/ adds x = [t_name (f_ref f)];
+  (* a modified table pre-exists or is created before, and is not dropped before *)
+  so_mod : forall pre t tcs post, l = pre ++ ModifyTable t tcs :: post ->
+    ~ In (t_name t) (flat_map drops pre) /\
+    (In (t_name t) (c_tabs c) \/ In (t_name t) (flat_map adds pre));
+  (* every live foreign key from another table to a dropped table is removed before *)
+  so_drop : forall pre p fks post e, l = pre ++ DropTable p fks :: post -> In e (c_fks c) ->
+    snd e = t_name p -> fst (fst e) <> t_name p ->
+    exists y, In y pre /\ removes (fst (fst e)) (snd (fst e)) y = true
+}.
+
+Section Split.
+  Variable l : list change.
+  Variable c : cat.
+  Hypothesis H : split_ok l c.
+
+  Lemma prefix_ok : forall pre post, l = pre ++ post -> exists st, replay pre c = Some st.
+  Proof.
+    induction pre as [|x pre IH] using rev_ind; intros post El; [eexists; reflexivity|].
+    rewrite <- app_assoc in El. simpl in El.
+    destruct (IH (x :: post) El) as [st Hst].
+    rewrite replay_app, Hst. simpl.
+    assert (Hx : In x l) by (rewrite El; apply in_or_app; right; left; reflexivity).
+    assert (Hnodrop_fk : forall f, In f (added_fks x) -> ~ In (t_name (f_ref f)) (flat_map drops pre)).
+    { intros f Hf Hd. apply (so_nodrop l c H x f Hx Hf).
+      rewrite El, flat_map_app. apply in_or_app. left. exact Hd. }
+    assert (Hfk_live : forall f, In f (added_fks x) ->
+              adds x = [t_name (f_ref f)] \/ In (t_name (f_ref f)) (c_tabs st)).
+    { intros f Hf. destruct (so_fk l c H pre x post f El Hf) as [H1|[H1|H1]].
+      - right. apply (after_tabs_lower pre c st _ Hst); [left; exact H1|apply Hnodrop_fk; exact Hf].
+      - right. apply (after_tabs_lower pre c st _ Hst); [right; exact H1|apply Hnodrop_fk; exact Hf].
+      - left. exact H1. }
+    destruct x as [t fks|t fks|t tcs].
+    - (* AddTable *)
+      assert (E : exists c', replay1 st (AddTable t fks) = Some c').
+      { apply step_add_ok.
+        - intros Hin. apply (after_tabs_upper pre c st _ Hst) in Hin. destruct Hin as [Hin|Hin].
+          + apply (so_adds_new l c H (t_name t)); [|exact Hin].
+            rewrite El, flat_map_app. apply in_or_app. right. simpl. left. reflexivity.
+          + pose proof (so_adds l c H) as Hadds. rewrite El, flat_map_app in Hadds. simpl in Hadds.
+            apply NoDup_remove_2 in Hadds. apply Hadds. apply in_or_app. left. exact Hin.
+        - intros f Hf. destruct (Hfk_live f Hf) as [H1|H1]; [left|right; exact H1].
+          simpl in H1. inversion H1. reflexivity. }
+      destruct E as [c' E]. rewrite E. eexists; reflexivity.
+    - (* DropTable *)
+      assert (E : exists c', replay1 st (DropTable t fks) = Some c').
+      { apply step_drop_ok.
+        - apply (after_tabs_lower pre c st _ Hst).
+          + left. apply (so_drops_old l c H). rewrite El, flat_map_app. apply in_or_app. right. simpl. left. reflexivity.
+          + pose proof (so_drops l c H) as Hdrops. rewrite El, flat_map_app in Hdrops. simpl in Hdrops.
+            apply NoDup_remove_2 in Hdrops. intros Hin. apply Hdrops. apply in_or_app. left. exact Hin.
+        - intros e He Hp. destruct (Nat.eq_dec (fst (fst e)) (t_name t)) as [Heq|Hne]; [exact Heq|exfalso].
+          destruct (after_fks pre c st e Hst He) as [[H1 H2]|[y [f [Hy [Hf Hfe]]]]].
+          + destruct (so_drop l c H pre t fks post e El H1 Hp Hne) as [y [Hy Hrm]].
+            rewrite (H2 y Hy) in Hrm. discriminate.
+          + assert (Hyl : In y l) by (rewrite El; apply in_or_app; left; exact Hy).
+            apply (so_nodrop l c H y f Hyl Hf).
+            subst e. simpl in Hp. rewrite Hp. apply in_drops_iff. exists t, fks. split; [exact Hx|reflexivity]. }
+      destruct E as [c' E]. rewrite E. eexists; reflexivity.
+    - (* ModifyTable *)
+      assert (E : exists c', replay1 st (ModifyTable t tcs) = Some c').
+      { destruct (so_mod l c H pre t tcs post El) as [Hdr Hex]. apply step_modify_ok.
+        - apply (after_tabs_lower pre c st _ Hst); [exact Hex|exact Hdr].
+        - intros f Hf. destruct (Hfk_live f Hf) as [H1|H1]; [discriminate H1|exact H1]. }
+      destruct E as [c' E]. rewrite E. eexists; reflexivity.
+  Qed.
+
+  Theorem split_replay_ok : exists c', replay l c = Some c'.
+  Proof. apply (prefix_ok l []). rewrite app_nil_r. reflexivity. Qed.
+End Split.
+
 Section Safe.
   Variable r : change -> nat.
   Variable l : list change.
@@ -309,65 +392,29 @@ Section Safe.
     apply in_flat_map. exists y. split; [exact Hp|]. rewrite Ha. left. reflexivity.
   Qed.
 
-  Lemma prefix_ok : forall pre post, l = pre ++ post -> exists st, replay pre c = Some st.
+  Lemma ranked_split : split_ok l c.
   Proof.
-    induction pre as [|x pre IH] using rev_ind; intros post El; [eexists; reflexivity|].
-    rewrite <- app_assoc in El. simpl in El.
-    destruct (IH (x :: post) El) as [st Hst].
-    rewrite replay_app, Hst. simpl.
-    assert (Hx : In x l) by (rewrite El; apply in_or_app; right; left; reflexivity).
-    assert (Hnodrop_fk : forall f, In f (added_fks x) -> ~ In (t_name (f_ref f)) (flat_map drops pre)).
-    { intros f Hf Hd. destruct (Hfk x f Hx Hf) as [Hnd _]. apply Hnd.
-      rewrite El, flat_map_app. apply in_or_app. left. exact Hd. }
-    assert (Hfk_live : forall f, In f (added_fks x) ->
-              adds x = [t_name (f_ref f)] \/ In (t_name (f_ref f)) (c_tabs st)).
-    { intros f Hf. destruct (Hfk x f Hx Hf) as [_ [H|[[y [Hy [Ha Hr]]]|H]]].
-      - right. apply (after_tabs_lower pre c st _ Hst); [left; exact H|apply Hnodrop_fk; exact Hf].
-      - right. apply (after_tabs_lower pre c st _ Hst); [|apply Hnodrop_fk; exact Hf].
-        right. apply (adds_in_pre pre x post _ y El Hy Ha Hr).
-      - left. exact H. }
-    destruct x as [t fks|t fks|t tcs].
-    - (* AddTable *)
-      assert (E : exists c', replay1 st (AddTable t fks) = Some c').
-      { apply step_add_ok.
-        - intros Hin. apply (after_tabs_upper pre c st _ Hst) in Hin. destruct Hin as [Hin|Hin].
-          + apply (Hadds_new (t_name t)); [|exact Hin].
-            rewrite El, flat_map_app. apply in_or_app. right. simpl. left. reflexivity.
-          + rewrite El, flat_map_app in Hadds. simpl in Hadds.
-            apply NoDup_remove_2 in Hadds. apply Hadds. apply in_or_app. left. exact Hin.
-        - intros f Hf. destruct (Hfk_live f Hf) as [H|H]; [left|right; exact H].
-          simpl in H. inversion H. reflexivity. }
-      destruct E as [c' E]. rewrite E. eexists; reflexivity.
-    - (* DropTable *)
-      assert (E : exists c', replay1 st (DropTable t fks) = Some c').
-      { apply step_drop_ok.
-        - apply (after_tabs_lower pre c st _ Hst).
-          + left. apply Hdrops_old. rewrite El, flat_map_app. apply in_or_app. right. simpl. left. reflexivity.
-          + rewrite El, flat_map_app in Hdrops. simpl in Hdrops.
-            apply NoDup_remove_2 in Hdrops. intros Hin. apply Hdrops. apply in_or_app. left. exact Hin.
-        - intros e He Hp. destruct (Nat.eq_dec (fst (fst e)) (t_name t)) as [Heq|Hne]; [exact Heq|exfalso].
-          destruct (after_fks pre c st e Hst He) as [[H1 H2]|[y [f [Hy [Hf Hfe]]]]].
-          + destruct (Hdrop t fks e Hx H1 Hp Hne) as [y [Hy [Hrm Hr]]].
-            pose proof (sorted_before r l Hsorted pre _ post y El Hy Hr) as Hyp.
-            rewrite (H2 y Hyp) in Hrm. discriminate.
-          + assert (Hyl : In y l) by (rewrite El; apply in_or_app; left; exact Hy).
-            destruct (Hfk y f Hyl Hf) as [Hnd _]. apply Hnd.
-            subst e. simpl in Hp. rewrite Hp. apply in_drops_iff. exists t, fks. split; [exact Hx|reflexivity]. }
-      destruct E as [c' E]. rewrite E. eexists; reflexivity.
-    - (* ModifyTable *)
-      assert (E : exists c', replay1 st (ModifyTable t tcs) = Some c').
-      { destruct (Hmod t tcs Hx) as [Hdr Hex]. apply step_modify_ok.
-        - apply (after_tabs_lower pre c st _ Hst).
-          + destruct Hex as [H|[y [Hy [Ha Hr]]]]; [left; exact H|right].
-            apply (adds_in_pre pre _ post _ y El Hy Ha Hr).
-          + intros Hin. apply in_drops_iff in Hin. destruct Hin as [t' [fks' [Hin _]]].
-            assert (Hl : In (DropTable t' fks') l) by (rewrite El; apply in_or_app; left; exact Hin).
-            pose proof (Hdr _ Hl eq_refl) as H1.
-            pose proof (sorted_prefix_le r l Hsorted pre _ post _ El Hin) as H2. lia.
-        - intros f Hf. destruct (Hfk_live f Hf) as [H|H]; [discriminate H|exact H]. }
-      destruct E as [c' E]. rewrite E. eexists; reflexivity.
+    constructor; try assumption.
+    - intros x f Hx Hf. apply (Hfk x f Hx Hf).
+    - intros pre x post f El Hf.
+      assert (Hx : In x l) by (rewrite El; apply in_or_app; right; left; reflexivity).
+      destruct (Hfk x f Hx Hf) as [_ [H|[[y [Hy [Ha Hr]]]|H]]]; [left; exact H| |right; right; exact H].
+      right. left. apply (adds_in_pre pre x post _ y El Hy Ha Hr).
+    - intros pre t tcs post El.
+      assert (Hx : In (ModifyTable t tcs) l) by (rewrite El; apply in_or_app; right; left; reflexivity).
+      destruct (Hmod t tcs Hx) as [Hdr Hex]. split.
+      + intros Hin. apply in_drops_iff in Hin. destruct Hin as [t' [fks' [Hin _]]].
+        assert (Hl : In (DropTable t' fks') l) by (rewrite El; apply in_or_app; left; exact Hin).
+        pose proof (Hdr _ Hl eq_refl) as H1.
+        pose proof (sorted_prefix_le r l Hsorted pre _ post _ El Hin) as H2. lia.
+      + destruct Hex as [H|[y [Hy [Ha Hr]]]]; [left; exact H|right].
+        apply (adds_in_pre pre _ post _ y El Hy Ha Hr).
+    - intros pre p fks post e El He Hp Hne.
+      assert (Hx : In (DropTable p fks) l) by (rewrite El; apply in_or_app; right; left; reflexivity).
+      destruct (Hdrop p fks e Hx He Hp Hne) as [y [Hy [Hrm Hr]]].
+      exists y. split; [|exact Hrm]. apply (sorted_before r l Hsorted pre _ post y El Hy Hr).
   Qed.
 
   Theorem ranked_replay_ok : exists c', replay l c = Some c'.
-  Proof. apply (prefix_ok l []). rewrite app_nil_r. reflexivity. Qed.
+  Proof. apply (split_replay_ok l c ranked_split). Qed.
 End Safe.
